@@ -51,6 +51,7 @@ struct AllocConfig {
   int fill_mode = 0;          // 0 prng, 1 0x00, 2 0xFF, 3 0xA5
   uint64_t env_seed = 0;
   bool quarantine = false;
+  bool pad = true;            // seeded front padding (perturb mode)
 };
 
 // Start/stop a measured call. Begin resets stats and declared counts.
